@@ -540,6 +540,21 @@ func (m *c15mon) batchInvert(rng *rand.Rand, vals []c15val) {
 				c.Fail("wrong-length/BatchInvert", fmt.Sprintf("BatchInvert of %d returned %d", n, len(out)), nil)
 				continue
 			}
+			// the result is the caller's: modifying it must not influence a second call
+			if n > 0 && variant == 0 {
+				out2 := fr.BatchInvert(in)
+				for i := range out {
+					out[i].SetUint64(0xBAD)
+				}
+				out3 := fr.BatchInvert(in)
+				for i := range out3 {
+					if out3[i] != out2[i] {
+						c.Fail("result-aliases-internal-state/BatchInvert", "BatchInvert returns a different slice content after the caller modified an earlier result", nil)
+						break
+					}
+				}
+				out = out3
+			}
 			for i := range out {
 				if in[i] != snap[i] {
 					c.Fail("operand-modified/BatchInvert", "BatchInvert changed its input", nil)
